@@ -43,7 +43,9 @@ OBLIGATIONS_STD = [
     "C19_std_positive", "C19_std_envelope", "C19_std_changes_only_at_multiples_of_L", "C19_std_factor", "C19_std_factor_iff",
     "C19_std_guards", "C19_std_runs", "C19_tie_update_std", "C19_tie_adapt", "C19_tie_sampler_guards", "C19_tie_sampler_init",
 ]
-OBLIGATIONS = OBLIGATIONS_ANNEAL + OBLIGATIONS_STD
+# where the annealing configuration comes from: the settings object (Api/Settings.v, tied by the C13 check)
+OBLIGATIONS_SETTINGS = ["C19_settings_explicit_annealing_count"]
+OBLIGATIONS = OBLIGATIONS_ANNEAL + OBLIGATIONS_STD + OBLIGATIONS_SETTINGS
 
 HEADER = """(* REGENERATED on every run from $VERIF_REPO/src/leaspy by harness/props/c19.py — do not edit *)
 From Coq Require Import ZArith QArith Qround Bool List.
